@@ -3,6 +3,7 @@ package main
 import (
 	"flag"
 	"fmt"
+	cli "github.com/jawher/mow.cli"
 	"regexp"
 	"strconv"
 	"strings"
@@ -26,10 +27,11 @@ type c03Case struct {
 	OnSub   bool // the declarations and the spec belong to a sub-command, not to the application itself
 	Stream  StreamPlan
 	Version bool // the application declares a version flag (-V --version)
+	Prelude bool // history: before it, the process runs an application whose help listing panics (a sub-command with an invalid spec) and recovers
 }
 
 func (c *c03Case) Describe() interface{} {
-	return map[string]interface{}{"decls": describeDecls(c.DS), "spec": c.Spec, "spec_source": c.Source, "argv": c.Argv, "env": c.Env.Describe(), "on_sub_command": c.OnSub, "stream": c.Stream.String()}
+	return map[string]interface{}{"decls": describeDecls(c.DS), "spec": c.Spec, "spec_source": c.Source, "argv": c.Argv, "env": c.Env.Describe(), "on_sub_command": c.OnSub, "stream": c.Stream.String(), "prelude_app_whose_help_panics": c.Prelude}
 }
 
 type c03Prop struct{}
@@ -229,6 +231,7 @@ func (c03Prop) genOne(t *Tape, light bool) *c03Case {
 	if t.Draw(4) == 0 {
 		c.Stream = drawStream(t)
 	}
+	c.Prelude = t.Draw(12) == 0
 	c.Version = t.Draw(5) == 0
 	if c.Version && t.Draw(3) == 0 {
 		argv = argv[:1] // an application with a version flag and nothing at all on the command line
@@ -292,6 +295,9 @@ func c03Prepare(c *c03Case, id int) *Prepared {
 	p := NewProc(id)
 	p.Stream = c.Stream
 	body := func() error {
+		if c.Prelude {
+			runPrelude()
+		}
 		inst := Build(app, p)
 		return inst.Cli.Run(c.Argv)
 	}
@@ -424,4 +430,15 @@ func c03HelpRequested(c *c03Case) bool {
 		}
 	}
 	return false
+}
+
+// runPrelude: another application of the same process asks for its help; listing its sub-commands compiles an invalid
+// spec and panics (the documented outcome), and the host program recovers. Nothing of that may outlive the call.
+func runPrelude() {
+	defer func() { recover() }()
+	pre := cli.App("pre", "an application with a broken sub-command")
+	pre.ErrorHandling = flag.ContinueOnError
+	pre.Command("broken", "invalid spec", func(c *cli.Cmd) { c.Spec = "[" })
+	pre.Command("fine", "valid", func(c *cli.Cmd) { c.Action = func() {} })
+	pre.Run([]string{"pre", "--help"})
 }
